@@ -225,6 +225,9 @@ def _run(chk, tier, model_ok):
                 # structures for which SizeCovers is a theorem (C01_sizeCovers_of_closed_folds), not a hypothesis
                 stats["structs_total"] += max(nstructs, 0)
                 stats["structs_sizeCovers_discharged (structClosedFolds)"] += int(parts.get("cov", 0))
+                # structures satisfying every decidable hypothesis of the refinement theorems (Model/ViewFrag.lean)
+                stats["structs_in_refinement_fragment (structInFragment)"] += int(parts.get("ref", 0))
+                stats["modules_in_refinement_fragment (moduleInFragment)"] += int(parts.get("refm", 0))
             if not head.startswith("ok ") or (parts.get("wf") != "1" and not wf_explained) \
                     or parts.get("csm") != "1" \
                     or int(parts.get("synth", -1)) != nstructs or int(parts.get("fuel", -1)) != nstructs:
